@@ -2,6 +2,7 @@
 and predict every pixel with the M3 point-location oracle."""
 import contextlib
 import io
+import sys
 import itertools
 
 import numpy as np
@@ -97,10 +98,21 @@ def call_map(c, mesh, extra_layers=False):
     buf = io.StringIO()
     import warnings
 
+    from ..engines import schedules as S
+
+    vt = contextlib.nullcontext()
+    if c.get("virtual_threads"):
+        # the parallel kernels below the real map() run on virtual threads (see engines/schedules.virtual_threads)
+        import types
+
+        mods = [m for n, m in list(sys.modules.items()) if n.startswith("osyris.plot") and isinstance(m, types.ModuleType)]
+        vt = S.virtual_threads(mods, c["virtual_threads"])
     try:
-        with contextlib.redirect_stdout(buf), np.errstate(all="ignore"), warnings.catch_warnings():
+        with vt, contextlib.redirect_stdout(buf), np.errstate(all="ignore"), warnings.catch_warnings():
             warnings.simplefilter("ignore")
             p = osyris.map(*layers, plot=False, **kw)
+    except S.HarnessError:
+        raise
     except Exception as e:
         return e, None
     # the basis the map is specified to use
